@@ -443,6 +443,31 @@ def latest_binding_rule(ck, F):
             continue
         ok = same(st, r, want) is True
         buckets[case].append(None if ok else f'answers {NAMES.get(r, contracts.render(v, st, {})[:40])} where {NAMES[want]} is bound (when {when})')
+    # bindings enter the table through subst only: a constructor or another member that fills the table its own way (a range
+    # constructor of the container, insert, emplace) need not resolve a repeated parameter the way successive subst calls do
+    from facts import walk as _walk2
+    table_fields = {fl['name'] for fl in F.rec[cls]['fields']}
+    MUT = ('insert', 'insert_or_assign', 'emplace', 'try_emplace', 'emplace_front', 'emplace_back', 'push_front', 'push_back', 'operator[]',
+           'assign', 'merge', 'swap', 'insert_after', 'emplace_after', 'insert_range')
+    other_writers = []
+    for g in F.fns_in(cls):
+        if g['id'] == sub[0]['id'] or g.get('implicit') or g.get('copy') or g.get('body') is None:
+            continue
+        for i_ in g.get('inits', []) if g.get('ctor') else []:
+            if i_.get('kind') == 'member' and i_.get('name') in table_fields and i_.get('written'):
+                e_ = i_.get('e') or {}
+                if (e_.get('args') or e_.get('elts')):
+                    other_writers.append(f'{contracts.short(contracts.fn_qname(g["id"]))} initialises {i_["name"]} from its arguments')
+        for n_ in _walk2(g.get('body')):
+            if n_.get('k') == 'call' and (n_.get('callee') or {}).get('name') in MUT and n_.get('obj') is not None \
+                    and n_['callee'].get('repo') is False:
+                o_ = n_['obj']
+                while isinstance(o_, dict) and o_.get('k') == 'cast':
+                    o_ = o_.get('e')
+                if isinstance(o_, dict) and o_.get('k') == 'member' and o_.get('name') in table_fields and not g['id'].endswith(' const'):
+                    other_writers.append(f'{contracts.short(contracts.fn_qname(g["id"]))} calls {n_["callee"]["name"]} on {o_["name"]}')
+    ck.check(R, 'bindings enter through subst only', not other_writers, f'{cls}: ' + '; '.join(sorted(set(other_writers))[:3]) +
+             ': a parameter named twice in such a bulk request need not get its latest binding', loc=F.rec[cls]['loc'])
     for case, res in buckets.items():
         bad = sorted({x for x in res if x})
         ck.check(R, case, bool(res) and not bad, f'General_substitution, after subst(a, x) and subst(b, y), queried with q ({case}): ' +
